@@ -22,7 +22,7 @@ func init() {
 	lib.Register(&c04{base{
 		id: "C04", level: "exploration",
 		technique: "runtime self-differential monitor + invariant hooks: each history of calls through the recycling entry points is replayed three times in one process (poison-on-redeem on, poison off, GC forced between calls) and every outcome is compared with the same call executed through the non-recycling API in a FRESH process (a sample is re-computed one call per process); meanwhile the pool hooks run an ownership automaton (double redeem, borrow of an owned object, redeem of an unknown object) and overwrite every redeemed object so that any stale read or forgotten re-initialisation becomes a visible difference; messages are scanned for tags of other calls and for the poison mark",
-		rule: "one case = one history of 60-240 calls mixing AgainstSchema, single-use recycling schema / parameter / header validators and whole-specification validation over generated schemas, instances, definitions, typed values and documents, including calls that end early (nil data, failed json.Number conversion, scalar at the root, first-error exits, invalid verdicts, anyOf/oneOf short-circuits); every call carries a unique tag in its names; distinct = FNV-64 of the rendered history; non-trivial = the pools actually re-used objects during the history (re-use count > 0) and the history mixes at least 3 kinds of calls",
+		rule: "one case = one history of 60-240 calls mixing AgainstSchema, single-use recycling schema / parameter / header validators and whole-specification validation over generated schemas, instances, definitions, typed values and documents, including calls that end early (nil data, failed json.Number conversion, scalar at the root, first-error exits, invalid verdicts, anyOf/oneOf short-circuits) and schema calls under the option sets SwaggerSchema / EnableObjectArrayTypeCheck / EnableArrayMustHaveItemsCheck / WithSkipSchemataResult (with schema-shaped instances under a cut-down meta schema); every call carries a unique tag in its names; distinct = FNV-64 of the rendered history; non-trivial = the pools actually re-used objects during the history (re-use count > 0) and the history mixes at least 3 kinds of calls",
 		assumptions: []string{
 			"the library alone in a fresh process, through its non-recycling API, is the oracle (for Spec, which has no off switch: alone in a fresh process)",
 			"outcomes are compared as verdict + sorted message multisets of errors and warnings",
